@@ -9,13 +9,22 @@ Oracles
       from the nets' weights; invariance of row (i, j) under permutation / removal of the other
       functions and locations; every documented way of handing the same functions to the branch
       (tensor, Points, callable, CustomFunctionSet, sum of function sets, the two call sequences
-      the DeepONet conditions use) gives the same output;
+      the DeepONet conditions use) gives the same output; a history of training calls on the one
+      model (2-3 function sets with their own functions handed over by _forward_branch(set, iteration)
+      + forward, or through a real PIDeepONetCondition, interleaved with fix_branch_input / tensor
+      forwards): after every call the output is the contraction for the functions of the set named
+      in that call (reference = harness contraction);
   (b) differential (shared trunk input = TrunkLinear fast path): a twin DeepONet with
       trunk_input_copied=False (torch.nn.Linear) and copied weights must give the same output,
       first and second derivatives w.r.t. the trunk inputs (torch.autograd.grad(create_graph=True)
       and torchphysics.utils.grad / laplacian) and the same gradient of a loss containing all
       three w.r.t. every parameter. Per-function trunk input (no fast path): the same comparison
       is made against the harness reference built on the net's own parameter tensors.
+      (b') the comparison of (b) is repeated with an asymmetric requires_grad configuration: trunk
+      locations that are plain data (no coordinate tracking: output + parameter gradients only)
+      and/or groups of frozen parameters (first trunk weight/bias, all trunk weights/biases, last
+      trunk layer, whole trunk, normalisation layer, branch); gradients are compared for every
+      input/parameter that still requires grad.
 """
 import numpy as np
 import torch
@@ -25,6 +34,7 @@ from torchphysics.models.deeponet.branchnets import ConvBranchNet1D, FCBranchNet
 from torchphysics.models.deeponet.deeponet import DeepONet
 from torchphysics.models.deeponet.trunknets import FCTrunkNet
 from torchphysics.models.model import NormalizationLayer, Sequential
+from torchphysics.problem.conditions import PIDeepONetCondition
 from torchphysics.problem.domains import CustomFunctionSet, Interval, Parallelogram
 from torchphysics.problem.samplers import DataSampler, GridSampler
 from torchphysics.problem.spaces import FunctionSpace, Points, Space
@@ -43,7 +53,15 @@ RULE = ("Hypothesis draws a DeepONet: trunk FCTrunkNet (1-3 hidden layers of 1-6
         "repeated along axis 0 + track_coord_gradients, as PIDeepONetCondition does), 'rank2' "
         "((N,d) Points as DeepONetDataLoader/examples pass), 'single' ((1,N,d)) - all three with "
         "trunk_input_copied=True - or 'perfn' ((B,N,d) different per function, "
-        "trunk_input_copied=False). Non-trivial: (output dim >= 2 or (>= 2 functions and >= 2 "
+        "trunk_input_copied=False). Every case also carries (i) a history of 2-6 training calls "
+        "on the one model over 2-3 function sets (length = the base batch or 1-4; perfn: always the "
+        "base length): fb(set, iteration in {None,0,1,2}, via _forward_branch+forward or "
+        "PIDeepONetCondition [repeat form]), fix (fix_branch_input with other functions), tensor "
+        "(forward with the set's functions as tensor) - calls where the clean caching rule is "
+        "known to reuse another set's features (set.current_iteration_num == iteration but the "
+        "model was handed something else since; D-C14-1) are dropped by the interpreter; (ii) a "
+        "second differential run with asym_track in {False (2/3), True} and 0-2 frozen parameter "
+        "groups (skipped when it would equal the first run or nothing requires grad). Non-trivial: (output dim >= 2 or (>= 2 functions and >= 2 "
         "locations)) and the second derivatives were compared (differentiation order 2 reached); "
         "distinct = spec hash without the rng seed.")
 ASSUMPTIONS = [
@@ -59,6 +77,16 @@ ASSUMPTIONS = [
     "input is the library's choice; only its consistency over all ways of supplying the function is "
     "checked",
     "torch.autograd, torch.nn.Linear, torch.nn.functional.conv1d are trusted",
+    "the history model: _forward_branch(set, it) re-samples and re-discretises the set unless "
+    "it == set.current_iteration_num (what DeepONetSingleModuleCondition relies on); a call that is "
+    "skipped under this rule while the model holds other branch features is the known finding "
+    "D-C14-1 (property C14) and is not generated here; every generated call must therefore yield "
+    "the contraction for its own set, also when two sets are used within one iteration number",
+    "function-set parameters come from a DataSampler (deterministic), so re-sampling a set gives "
+    "the same functions and the expected output of a set does not depend on the iteration",
+    "frozen parameters / untracked locations: only gradients w.r.t. tensors that require grad are "
+    "compared (None from autograd counts as zero); torch.nn.Linear is the reference for which "
+    "gradients exist",
     "library grad/laplacian are called with one variable at a time and compared fast path against "
     "twin (their own correctness is C03)",
 ]
@@ -69,6 +97,8 @@ TOL = 1e-9
 SMOOTH = ["tanh", "sin", "sigmoid", "softplus", "gelu"]
 BRANCH_ACTS = SMOOTH + ["relu"]
 FORMS = ["repeat", "rank2", "single", "perfn"]
+FROZEN = ["trunk-first-weight", "trunk-first-weight", "trunk-first-bias", "trunk-weights",
+          "trunk-biases", "trunk-last", "trunk-all", "norm", "norm", "branch"]
 IN_VARS = [[["x", 1]], [["x", 2]], [["x", 1], ["t", 1]], [["x", 2], ["t", 1]], [["t", 1], ["x", 2]],
            [["x", 3]]]
 
@@ -134,7 +164,27 @@ def _case(draw, tier):
         "fn_kind": draw(st.integers(0, 2)),
         "rng": draw(st.integers(0, 2 ** 31 - 1)),
     }
+    # training-call history: 2-3 function sets (length 0 = "as many functions as the base batch")
+    # used on the ONE model through DeepONet._forward_branch / PIDeepONetCondition
+    n_sets = draw(st.integers(2, 3))
+    spec["fb_lens"] = [draw(st.sampled_from([0, 0, 0, 0, 0, 1, 2, 3, 4])) for _ in range(n_sets)]
+    spec["fb_ops"] = draw(st.lists(_fb_op(), min_size=2, max_size=6))
+    # second differential run with asymmetric requires_grad flags
+    spec["asym_track"] = draw(st.sampled_from([False, False, True]))
+    spec["asym_frozen"] = draw(st.lists(st.sampled_from(FROZEN), max_size=2, unique=True))
     return spec
+
+
+@st.composite
+def _fb_op(draw):
+    kind = draw(st.sampled_from(["fb", "fb", "fb", "fb", "fix", "tensor"]))
+    if kind == "fb":
+        return {"op": "fb", "set": draw(st.integers(0, 2)),
+                "it": draw(st.sampled_from([None, 0, 0, 1, 1, 2])),
+                "via": draw(st.sampled_from(["direct", "cond"]))}
+    if kind == "tensor":
+        return {"op": "tensor", "set": draw(st.integers(0, 2))}
+    return {"op": "fix"}
 
 
 def strategy(tier):
@@ -149,6 +199,8 @@ def extra_cases(tier, seed):
             for out_dim in (1, 2, 3):
                 k += 1
                 iv = IN_VARS[(k + out_dim) % len(IN_VARS)]
+                it = [0, None, 3][k % 3] if k % 2 else [0, 2, None][k % 3]
+                via = ["cond", "direct"][(k // 2) % 2]
                 yield {
                     "in_vars": iv, "norm": bool(k % 2),
                     "norm_box": [[-0.5, 0.25]] * sum(d for _, d in iv),
@@ -162,7 +214,36 @@ def extra_cases(tier, seed):
                     "fdim": 1 + k % 2, "fin_dim": 1, "n_disc": 4 + k % 3,
                     "disc": ["grid", "data"][k % 2], "n_par": 1 + k % 2, "fn_kind": k % 3,
                     "rng": (seed * 7919 + 104729 * k) % (2 ** 31 - 1),
+                    # two conditions with different function sets of equal length on one model,
+                    # two training iterations (every second case with the default iteration=None)
+                    "fb_lens": [0, 0, 0 if k % 4 else 1],
+                    "fb_ops": [{"op": "fb", "set": 0, "it": it, "via": via},
+                               {"op": "fb", "set": 1, "it": it, "via": via},
+                               {"op": "fb", "set": 2, "it": it, "via": "direct"}]
+                    + ([] if it is None else
+                       [{"op": "fb", "set": 1, "it": it + 1, "via": via},
+                        {"op": "fb", "set": 0, "it": it + 1, "via": "direct"},
+                        {"op": "tensor", "set": 1},
+                        {"op": "fb", "set": 0, "it": it + 2, "via": via}]),
+                    # data-driven training (locations are plain data) / partly frozen networks
+                    "asym_track": [False, True, False, False, True, False][k % 6],
+                    "asym_frozen": [[], ["trunk-first-weight"], ["norm"], ["trunk-first-bias", "norm"],
+                                    ["trunk-weights"], ["branch"]][k % 6],
                 }
+    # two conditions with different function sets of equal length sharing one DeepONet over three
+    # training iterations / purely data-driven parameter-gradient comparison, plain trunk
+    base = {"in_vars": [["x", 2]], "norm": False, "norm_box": [[0.0, 1.0]] * 2,
+            "trunk_hidden": [5, 4], "trunk_acts": ["tanh", "tanh"], "acts_as_list": False,
+            "branch": "fc", "branch_hidden": [4, 4], "branch_acts": ["tanh", "tanh"],
+            "conv_kernel": 3, "conv_act": "tanh", "out_dim": 2, "per": 4, "extra": 0, "n_fn": 3,
+            "n_loc": 5, "fdim": 1, "fin_dim": 1, "n_disc": 6, "disc": "grid", "n_par": 1,
+            "fn_kind": 1, "fb_lens": [0, 0]}
+    for j, form in enumerate(["repeat", "rank2", "single"]):
+        for i, its in enumerate([[0, 1, 2], [None, None]]):
+            yield dict(base, form=form, rng=(seed * 31 + 1000003 * (2 * j + i + 1)) % (2 ** 31 - 1),
+                       fb_ops=[{"op": "fb", "set": s_, "it": it, "via": ["cond", "direct"][i]}
+                               for it in its for s_ in ((0, 1) if it != 1 else (1, 0))][: 6 if i == 0 else 2],
+                       asym_track=bool(i), asym_frozen=["trunk-first-weight"] if i else [])
 
 
 # ------------------------------------------------------------------------------------ building
@@ -389,9 +470,120 @@ def _derivatives(y, coords, var_names, w0):
     return torch.stack(gs), torch.stack(Hs)
 
 
+def _loss0(y, lw):
+    return (y ** 2).mean() + (y * lw[0]).sum()
+
+
+def _frozen_names(names, groups):
+    """Parameter names selected by the group labels of spec['asym_frozen']."""
+    trunk = [n for n in names if n.startswith("trunk") and ".normalize." not in n]
+    idx = sorted({int(n.split(".")[-2]) for n in trunk})
+    first = [n for n in trunk if int(n.split(".")[-2]) == idx[0]]
+    last = [n for n in trunk if int(n.split(".")[-2]) == idx[-1]]
+    sel = {"trunk-first-weight": [n for n in first if n.endswith(".weight")],
+           "trunk-first-bias": [n for n in first if n.endswith(".bias")],
+           "trunk-weights": [n for n in trunk if n.endswith(".weight")],
+           "trunk-biases": [n for n in trunk if n.endswith(".bias")],
+           "trunk-last": last, "trunk-all": trunk,
+           "norm": [n for n in names if ".normalize." in n],
+           "branch": [n for n in names if n.startswith("branch")]}
+    return frozenset(n for g in groups for n in sel[g])
+
+
 def _loss(y, g, H, lw):
     return ((y ** 2).mean() + (g ** 2).mean() + (H ** 2).mean()
             + (y * lw[0]).sum() + (g * lw[1]).sum() + (H * lw[2]).sum())
+
+
+def _history(spec, ctx, cmp, net, ref, best, fn, f_space, in_space, disc_pts, x, poison, gen):
+    """Training-call history on ONE model: 2-3 function sets (own drawn parameters) are handed to
+    the model the way DeepONetSingleModuleCondition.forward does (_forward_branch(set, iteration)
+    followed by a forward without branch input; 'cond' = through a real PIDeepONetCondition),
+    interleaved with other ways of fixing the branch.  After every call the output must be the
+    contraction for the functions of the set that was named in THIS call.
+
+    The history is interpreted against a model of the documented caching rule (a function set is
+    re-sampled and re-discretised once per iteration number).  Calls for which the clean library is
+    known to leave another set's branch features in the model (set.current_iteration_num ==
+    iteration although the model was handed something else in between; finding D-C14-1 of C14)
+    are left out of the history."""
+    ops = spec.get("fb_ops") or []
+    if not ops:
+        return []
+    form, B, n_par = spec["form"], spec["n_fn"], spec["n_par"]
+    feat = "forward-branch-history"
+    lens = [B if (form == "perfn" or not L) else int(L) for L in (spec.get("fb_lens") or [0, 0])]
+    sets = []
+    for L in lens:
+        kv = torch.randn((L, n_par), generator=gen, dtype=torch.float64)
+        with torch.no_grad():
+            disc = fn(*[kv[:, k:k + 1].unsqueeze(1) for k in range(n_par)],
+                      disc_pts.unsqueeze(0).expand(L, -1, -1)).clone()
+            want = ref.outputs(x, disc)[best]
+        with ctx.lib("construct function set", feature=feat):
+            fs = CustomFunctionSet(
+                f_space, DataSampler({n: kv[:, k:k + 1].clone() for k, n in enumerate(["a", "b"][:n_par])}),
+                fn)
+        sets.append({"fs": fs, "disc": disc, "want": want, "cur": -1, "cond": None, "len": L,
+                     "seen": {}})
+    labels, holder, prev_fb = set(), None, None
+    for k, op in enumerate(ops):
+        if op["op"] == "fix":
+            with ctx.lib("fix_branch_input", feature=feat):
+                net.fix_branch_input(poison.clone())
+            holder = None
+            continue
+        s = int(op["set"]) % len(sets)
+        S = sets[s]
+        if op["op"] == "tensor":
+            with ctx.lib("forward/history tensor", feature=feat):
+                _, p = _trunk_points(spec, x, in_space, S["len"])
+                out = net(p, S["disc"].clone())
+            holder = None
+            kind, what = "supply-mismatch", f"op {k}: functions of set {s} as tensor"
+        else:
+            it = op["it"]
+            cached = it == S["cur"]
+            if cached and holder != s:
+                labels.add("history-dropped-known-stale")
+                continue
+            via = op["via"] if form == "repeat" else "direct"
+            if via == "cond":
+                if S["cond"] is None:
+                    def residual(u, _seen=S["seen"]):
+                        _seen["u"] = u
+                        return u
+                    with ctx.lib("construct PIDeepONetCondition", feature=feat):
+                        S["cond"] = PIDeepONetCondition(net, S["fs"],
+                                                        DataSampler(Points(x.clone(), in_space)),
+                                                        residual, name=f"set{s}")
+                S["seen"].clear()
+                with ctx.lib("PIDeepONetCondition.forward", feature=feat):
+                    S["cond"](iteration=it)
+                out = S["seen"].get("u")
+            else:
+                with ctx.lib("_forward_branch + forward", feature=feat):
+                    net._forward_branch(S["fs"], iteration_num=it)
+                    _, p = _trunk_points(spec, x, in_space, S["len"])
+                    out = net(p)
+            if prev_fb is not None and prev_fb[0] != s and prev_fb[1] == it:
+                labels.add("history-two-sets-one-iteration"
+                           + ("-equal-length" if sets[prev_fb[0]]["len"] == S["len"] else ""))
+            if cached:
+                labels.add("history-cached-call")
+            S["cur"], holder, prev_fb = it, s, (s, it)
+            kind = "stale-branch"
+            what = (f"op {k}: function set {s} (length {S['len']}) at iteration {it} via {via}"
+                    f"{' (cached)' if cached else ''}")
+        if isinstance(out, Points):
+            out = out.as_tensor
+        if not isinstance(out, torch.Tensor):
+            ctx.violation("shape", feat, f"{what}: model output is {type(out).__name__}")
+            continue
+        cmp.check(kind, feat, out.detach(), S["want"],
+                  what + " vs sum_m branch[i,c,m]*trunk[j,c,m] for the functions of that set")
+        labels.add("history-checked")
+    return sorted(labels)
 
 
 # ------------------------------------------------------------------------------------ the case
@@ -558,24 +750,41 @@ def _run(spec, ctx):
     if not torch.equal(x, x0) or not torch.equal(disc, disc0):
         ctx.violation("input-modified", form, "forward changed the caller's input tensor")
 
+    # ---- (a) training-call histories: several function sets on the one model ----------------
+    if errs[best][2]:       # (a wrong contraction would only be reported a second time)
+        classes += _history(spec, ctx, cmp, net, ref, best, fn, f_space, in_space, disc_pts, x,
+                            poison, gen)
+
     # ---- (b) differential: fast path vs plain network, derivatives, parameter gradients ----
     w0 = 0.5 + rnd(*((B, N, dim)))
     g_shape = (dim, B, N, d_in) if form in ("repeat", "perfn") else \
         ((dim, N, d_in) if form == "rank2" else (dim, 1, N, d_in))
     lw = [0.1 * (rnd(B, N, dim) - 0.5), 0.1 * (rnd(*g_shape) - 0.5), 0.1 * (rnd(*g_shape, d_in) - 0.5)]
 
-    def run_model(model, label, lib_ops):
+    def param_grads(model, loss):
+        """d loss / d every parameter that requires grad (None -> zeros), by parameter name."""
+        named = [(n, p_) for n, p_ in model.named_parameters() if p_.requires_grad]
+        if not named or not loss.requires_grad:
+            return {}
+        pg = torch.autograd.grad(loss, [p_ for _, p_ in named], allow_unused=True)
+        return {n: (q if q is not None else torch.zeros_like(p_)) for (n, p_), q in zip(named, pg)}
+
+    def run_model(model, label, lib_ops, track):
         with ctx.lib(label, feature=feat):
-            coords, p = _trunk_points(spec, x, in_space, B, track=True)
+            coords, p = _trunk_points(spec, x, in_space, B, track=track)
             model.fix_branch_input(disc.clone())
             y = model(p).as_tensor
         if tuple(y.shape) != (B, N, dim):
             ctx.violation("shape", feat, f"{label}: output {tuple(y.shape)}")
             return None
+        if not track:       # locations are plain data: output and parameter gradients only
+            with ctx.lib(label + " parameter gradients", feature=feat):
+                pg = param_grads(model, _loss0(y, lw))
+            return {"y": y, "g": None, "H": None, "ops": {}, "pg": pg}
         with ctx.lib(label + " autograd", feature=feat):
             g, H = _derivatives(y, coords, var_names, w0)
         ops = {}
-        if lib_ops:
+        if lib_ops and y.requires_grad:
             with ctx.lib(label + " utils.grad/laplacian", feature=feat):
                 for c in range(dim):
                     for v in var_names:
@@ -586,64 +795,105 @@ def _run(spec, ctx):
             ctx.violation("shape", feat, f"{label}: d out/d trunk input has shape {tuple(g.shape)}")
             return None
         with ctx.lib(label + " parameter gradients", feature=feat):
-            names = [n for n, _ in model.named_parameters()]
-            pg = torch.autograd.grad(_loss(y, g, H, lw), list(model.parameters()), allow_unused=True)
-        pg = {n: (q if q is not None else torch.zeros_like(p_))
-              for n, q, p_ in zip(names, pg, model.parameters())}
+            pg = param_grads(model, _loss(y, g, H, lw))
         return {"y": y, "g": g, "H": H, "ops": ops, "pg": pg}
 
-    fast = run_model(net, "fast path" if copied else "model", lib_ops=copied)
-    if fast is None:
-        return {"nontrivial": False, "classes": classes, "summary": cmp.worst}
-    if copied:
-        with ctx.lib("construct twin", feature="deeponet"):
-            twin, _, _ = _build(spec, False, disc_sampler, f_space, in_space, out_space)
-            twin.load_state_dict(net.state_dict())
-        other = run_model(twin, "twin (torch.nn.Linear)", lib_ops=True)
-        tag, oname = "fastpath", "twin with torch.nn.Linear"
-    else:
-        # no fast path: compare with the harness reference on the same parameter tensors
-        xs = [x[..., k:k + d].clone().requires_grad_(True)
-              for k, d in zip(np.cumsum([0] + [d for _, d in spec["in_vars"]][:-1]).tolist(),
-                              [d for _, d in spec["in_vars"]])]
-        coords = dict(zip(var_names, xs))
+    def reference_run(track):
+        # no fast path: the harness reference on the same parameter tensors
+        dims = [d for _, d in spec["in_vars"]]
+        xs = [x[..., k:k + d].clone().requires_grad_(track)
+              for k, d in zip(np.cumsum([0] + dims[:-1]).tolist(), dims)]
         y = ref.outputs(torch.cat(xs, dim=-1), disc)[best]
-        g, H = _derivatives(y, coords, var_names, w0)
-        names = [n for n, _ in net.named_parameters()]
-        pg = torch.autograd.grad(_loss(y, g, H, lw), list(net.parameters()), allow_unused=True)
-        other = {"y": y, "g": g, "H": H, "ops": {},
-                 "pg": {n: (q if q is not None else torch.zeros_like(p_))
-                        for n, q, p_ in zip(names, pg, net.parameters())}}
-        tag, oname = "reference", "harness reference"
-    order2 = False
-    if other is not None:
+        if not track:
+            return {"y": y, "g": None, "H": None, "ops": {}, "pg": param_grads(net, _loss0(y, lw))}
+        g, H = _derivatives(y, dict(zip(var_names, xs)), var_names, w0)
+        return {"y": y, "g": g, "H": H, "ops": {}, "pg": param_grads(net, _loss(y, g, H, lw))}
+
+    twin_box = []
+
+    def differential(track, frozen, suffix):
+        """Runs the model and its counterpart with the given requires_grad configuration and
+        compares level by level; returns (result of the model, second derivatives compared)."""
+        models = [net]
+        if copied:
+            if not twin_box:
+                with ctx.lib("construct twin", feature="deeponet"):
+                    twin, _, _ = _build(spec, False, disc_sampler, f_space, in_space, out_space)
+                    twin.load_state_dict(net.state_dict())
+                twin_box.append(twin)
+            models.append(twin_box[0])
+        for m in models:
+            for n, p_ in m.named_parameters():
+                p_.requires_grad_(n not in frozen)
+        try:
+            fast = run_model(net, ("fast path" if copied else "model") + suffix, lib_ops=copied,
+                             track=track)
+            if fast is None:
+                return None, False
+            if copied:
+                other = run_model(twin_box[0], "twin (torch.nn.Linear)" + suffix, lib_ops=True,
+                                  track=track)
+                tag, oname = "fastpath", "twin with torch.nn.Linear"
+            else:
+                other = reference_run(track)
+                tag, oname = "reference", "harness reference"
+        finally:
+            for m in models:
+                for p_ in m.parameters():
+                    p_.requires_grad_(True)
+        if other is None:
+            return fast, False
         # A fault in one level determines the levels derived from it: report the first failing
         # level only (one root cause -> one signature), but measure all of them.
         n_before = len(ctx.case_violations)
+        fsuf = form + suffix
 
         def level(kind, feature, got, want, what):
             mark = len(ctx.case_violations)
-            done = cmp.check(kind, feature, got, want, what)
+            done = cmp.check(kind, feature, got, want, what + suffix)
             if mark > n_before:                 # an earlier level already failed
                 del ctx.case_violations[mark:]
             return done
 
-        level(f"{tag}-output", form, fast["y"], other["y"], f"output vs {oname}")
-        level(f"{tag}-grad1", form, fast["g"], other["g"], f"first derivatives vs {oname}")
-        order2 = level(f"{tag}-grad2", form, fast["H"], other["H"], f"second derivatives vs {oname}")
+        order2 = False
+        level(f"{tag}-output", fsuf, fast["y"], other["y"], f"output vs {oname}")
+        if track:
+            level(f"{tag}-grad1", fsuf, fast["g"], other["g"], f"first derivatives vs {oname}")
+            order2 = level(f"{tag}-grad2", fsuf, fast["H"], other["H"],
+                           f"second derivatives vs {oname}")
         for k in sorted(fast["ops"]):
             if k not in other["ops"]:
                 continue
             kind = "libgrad" if k.startswith("grad") else "liblaplacian"
-            level(f"{tag}-{kind}", form, fast["ops"][k], other["ops"][k],
+            level(f"{tag}-{kind}", fsuf, fast["ops"][k], other["ops"][k],
                   f"torchphysics.utils {k} vs {oname}")
-        for n in sorted(fast["pg"]):
+        for n in sorted(set(fast["pg"]) | set(other["pg"])):
             part = "norm" if ".normalize." in n else ("trunk" if n.startswith("trunk") else "branch")
-            if n not in other["pg"]:
-                ctx.violation("shape", feat, f"parameter {n} missing in {oname}")
+            if n not in other["pg"] or n not in fast["pg"]:
+                ctx.violation("shape", feat, f"parameter gradient of {n} only on one side ({oname})")
                 continue
-            level(f"{tag}-paramgrad", f"{form}-{part}", fast["pg"][n], other["pg"][n],
+            level(f"{tag}-paramgrad", f"{form}-{part}{suffix}", fast["pg"][n], other["pg"][n],
                   f"d loss/d {n} vs {oname}")
+        return fast, order2
+
+    n_viol = len(ctx.case_violations)
+    fast, order2 = differential(True, frozenset(), "")
+    if fast is None:
+        return {"nontrivial": False, "classes": classes, "summary": cmp.worst}
+
+    # ---- (b') the same with asymmetric requires_grad: locations that are plain data (data-driven
+    # training: nothing in front of the first trunk layer requires grad) and/or frozen parameters
+    names = [n for n, _ in net.named_parameters()]
+    frozen = _frozen_names(names, spec.get("asym_frozen") or [])
+    a_track = bool(spec.get("asym_track", True))
+    if "asym_track" in spec and (frozen or not a_track) and (a_track or len(frozen) < len(names)) \
+            and len(ctx.case_violations) == n_viol:     # (a fault of (b) would only be repeated)
+        suffix = "|" + ("track" if a_track else "notrack") + ("-frozen" if frozen else "")
+        differential(a_track, frozen, suffix)
+        first_in_grad = a_track or any(".normalize." in n and n not in frozen for n in names)
+        first_w = _frozen_names(names, ["trunk-first-weight"])
+        classes.append("asym-" + ("input-grad" if first_in_grad else "input-plain") + "/"
+                       + ("first-weight-frozen" if first_w <= frozen else "first-weight-trained"))
     h_mag = float(fast["H"].detach().abs().max())
     if h_mag > 1e-6:
         classes.append("hessian-nonzero")
